@@ -190,6 +190,7 @@ func (p *Processor) ChargingDataCreate(
 		self.Lock()
 		recordSeq := self.LocalRecordSequenceNumber
 		self.Unlock()
+		verifhook.At("create.refread", "ue", ue)
 		chargingSessionId = ueId + "-" + consumerId + "-" + strconv.Itoa(int(recordSeq))
 	}
 	cdr, err := p.OpenCDR(chargingData, ue, chargingSessionId, false)
